@@ -16,7 +16,19 @@ import (
 
 const verifRoot = "/verif"
 
-var pkgDirs = []string{"/repo/v2", "/repo/v2/jd", "/repo", "/repo/lib"}
+// repoRoot is the tree under check. JDVC_REPO and JDVC_OUT exist only so that the false-alarm
+// experiments (tools/try_refactor_par.sh) can run several lanes on scratch copies at once; the
+// registered commands never set them.
+var repoRoot = envOr("JDVC_REPO", "/repo")
+var outRoot = envOr("JDVC_OUT", verifRoot)
+var pkgDirs = []string{repoRoot + "/v2", repoRoot + "/v2/jd", repoRoot, repoRoot + "/lib"}
+
+func envOr(k, d string) string {
+	if v := os.Getenv(k); v != "" {
+		return v
+	}
+	return d
+}
 
 // KnownFindings is /verif/known_findings.json (committed; never written at run time).
 type KnownFindings struct {
@@ -173,6 +185,7 @@ type funcUnderCheck struct {
 	key    string
 	isNew  bool // swept function without contract that is not in the committed baseline of the unchanged tree
 	stale  bool // its contract names a loop or a variable that no longer exists: the proof cannot be rebuilt
+	fault  string // the generator could not process the function (a construct outside the subset): no proof either way
 	res    *FuncResult
 	rac    *RACResult
 	noProof bool
@@ -320,21 +333,22 @@ func cmdCheck(args []string) {
 		racTier, racCap = 1, int64(3000000)
 	}
 	// work directories left behind by interrupted runs (older than two hours) are removed
-	if ents, err := os.ReadDir(filepath.Join(verifRoot, "work")); err == nil {
+	if ents, err := os.ReadDir(filepath.Join(outRoot, "work")); err == nil {
 		for _, en := range ents {
 			if info, err := en.Info(); err == nil && strings.HasPrefix(en.Name(), "check-") && time.Since(info.ModTime()) > 2*time.Hour {
-				os.RemoveAll(filepath.Join(verifRoot, "work", en.Name()))
+				os.RemoveAll(filepath.Join(outRoot, "work", en.Name()))
 			}
 		}
 	}
-	workDir := filepath.Join(verifRoot, "work", fmt.Sprintf("check-%s-%d", *prop, os.Getpid()))
+	workDir := filepath.Join(outRoot, "work", fmt.Sprintf("check-%s-%d", *prop, os.Getpid()))
 	os.MkdirAll(workDir, 0o755)
 	defer os.RemoveAll(workDir)
-	replayDir := filepath.Join(verifRoot, "replays")
+	replayDir := filepath.Join(outRoot, "replays")
 	os.MkdirAll(replayDir, 0o755)
 
 	var fucs []*funcUnderCheck
 	var stale []string
+	var funcFaults []string
 	var engineErrors []string
 	for _, dir := range pkgDirs {
 		if !dirCarries(dir, *prop) {
@@ -394,13 +408,18 @@ func cmdCheck(args []string) {
 			}
 		}
 		for _, er := range f.res.Errors {
-			if strings.Contains(er, "unknown identifier") && (strings.Contains(er, "invariant") || strings.Contains(er, "decreases")) {
+			if strings.Contains(er, "unknown identifier") && (strings.Contains(er, "invariant") || strings.Contains(er, "decreases") || strings.Contains(er, "stale clause")) {
 				// a loop annotation names a variable that no longer exists: stale contract, not an engine fault
 				f.stale = true
 				stale = append(stale, f.key+": "+er)
 				continue
 			}
-			engineErrors = append(engineErrors, f.key+": "+er)
+			// the generator met a construct outside its subset in this function. Every function of the
+			// unchanged tree is processed without such an error (that is what a passing run on the unchanged
+			// tree shows), so this is changed code the engine cannot read: undecided, not a violation and
+			// not a broken check; the bounded stand-ins still decide the property on the real code.
+			f.fault = er
+			funcFaults = append(funcFaults, f.key+": "+er)
 		}
 	}
 	discharge(results, filepath.Join(workDir, "smt"), timeout, 16, *verbose)
@@ -497,9 +516,25 @@ func cmdCheck(args []string) {
 	solverTime := 0.0
 	var samples []interface{}
 	canaryOK := true
+	// functions with a failed loop-invariant obligation: their proof is broken as a whole
+	brokenProof := map[*funcUnderCheck]bool{}
 	for _, f := range fucs {
 		if f.res == nil {
 			continue
+		}
+		for _, o := range f.res.Obls {
+			if !o.Passed() && !o.ExpectSat && (o.Kind == "inv-init" || o.Kind == "inv-preserved" || o.Kind == "decreases") {
+				brokenProof[f] = true
+			}
+		}
+	}
+	for _, f := range fucs {
+		if f.res == nil {
+			continue
+		}
+		if f.fault != "" && len(f.res.Obls) == 0 {
+			fmt.Printf("UNDECIDED property=%s obligation=%s#all (the verification-condition generator could not process %s: %s)\n", *prop, f.key, f.key, f.fault)
+			undecided++
 		}
 		for _, o := range f.res.Obls {
 			nObl++
@@ -523,6 +558,25 @@ func cmdCheck(args []string) {
 					knownSeen[kf.ID] = true
 					fmt.Printf("KNOWN-FINDING: property=%s %s\n", *prop, kf.Text)
 				}
+				continue
+			}
+			if f.fault != "" || o.Status == "error" {
+				why := "the verification-condition generator could not process " + f.key + ": " + f.fault
+				if f.fault == "" {
+					why = "every solver rejected the generated query, an engine limitation: " + firstLine(o.Output)
+				}
+				fmt.Printf("UNDECIDED property=%s obligation=%s (%s)\n", *prop, strings.ReplaceAll(o.Name, " ", "_"), why)
+				undecided++
+				continue
+			}
+			if brokenProof[f] && !hasMatchingFailure(f, o) {
+				// a loop invariant of this function is no longer inductive and no input is known on which the
+				// real code breaks its contract: the proof has to be redone for the rewritten loop. The
+				// obligations after the loop were generated assuming that invariant, so none of them is
+				// evidence either way. Undecided; the bounded stand-ins decide on the real code.
+				fmt.Printf("UNDECIDED property=%s obligation=%s (a loop invariant of %s is no longer inductive and no failing input of the real code is known: the proof needs redoing)\n",
+					*prop, strings.ReplaceAll(o.Name, " ", "_"), f.key)
+				undecided++
 				continue
 			}
 			if f.stale {
@@ -660,7 +714,7 @@ func cmdCheck(args []string) {
 	}
 	sort.Strings(notes)
 	sort.Strings(externals)
-	if nDis != nObl || len(stale) > 0 || len(engineErrors) > 0 {
+	if nDis != nObl || len(stale) > 0 || len(engineErrors) > 0 || len(funcFaults) > 0 {
 		level = "other"
 	}
 	if lv := levelOverride(*prop); lv != "proof" || level != "proof" {
@@ -674,7 +728,7 @@ func cmdCheck(args []string) {
 		"obligations": nObl, "discharged": nDis, "by_backend": byBackend, "solver_time_s": round2(solverTime),
 		"functions_under_contract": funcs, "stale_blocks": stale, "bounded": boundedInfo, "samples": samples,
 		"checker_cmd": fmt.Sprintf("bin/jdvc check --property %s --tier %s", *prop, *tier),
-		"trusted_base": trustedBase(externals), "canary_sat": canaryOK, "engine_errors": engineErrors, "abstractions_hit": notes,
+		"trusted_base": trustedBase(externals), "canary_sat": canaryOK, "engine_errors": engineErrors, "functions_outside_subset": funcFaults, "abstractions_hit": notes,
 		"evaluations": int64(nObl) + racEvals, "distinct_nontrivial": nDis + 2,
 		"rule":        "one evaluation per generated proof obligation plus one per tuple of the bounded stand-ins; distinct_nontrivial counts discharged obligations (each names a distinct program point/clause)",
 		"explanation": explanation(nObl, nDis, boundedInfo, stale),
@@ -688,6 +742,9 @@ func cmdCheck(args []string) {
 	}
 	for _, s := range stale {
 		fmt.Fprintln(os.Stderr, "STALE:", s)
+	}
+	for _, s := range funcFaults {
+		fmt.Fprintln(os.Stderr, "UNSUPPORTED:", s)
 	}
 	os.RemoveAll(workDir) // (deferred calls do not run on os.Exit)
 	if violations > 0 {
@@ -827,8 +884,8 @@ func writeEvidence(prop, tier string, seed int64, level string, cov map[string]i
 		"property_id": prop, "tier": t, "seed": seed, "level": level, "coverage": cov,
 		"assumptions": assumptions, "wall_s": round2(wall), "violations": violations,
 	}
-	os.MkdirAll(filepath.Join(verifRoot, "evidence"), 0o755)
-	writeJSON(filepath.Join(verifRoot, "evidence", prop+".json"), ev)
+	os.MkdirAll(filepath.Join(outRoot, "evidence"), 0o755)
+	writeJSON(filepath.Join(outRoot, "evidence", prop+".json"), ev)
 }
 
 func fileSafe(s string) string {
@@ -906,4 +963,26 @@ func cmdBaseline(args []string) {
 	os.MkdirAll(filepath.Join(verifRoot, "baseline"), 0o755)
 	writeJSON(filepath.Join(verifRoot, "baseline", "functions.json"), out)
 	fmt.Println("baseline written")
+}
+
+func firstLine(s string) string {
+	s = strings.TrimSpace(s)
+	if i := strings.Index(s, "\n"); i >= 0 {
+		s = s[:i]
+	}
+	return truncate(s, 200)
+}
+
+// hasMatchingFailure reports whether the bounded run of f's own contract on the real code found an
+// input that accounts for the failed obligation o.
+func hasMatchingFailure(f *funcUnderCheck, o *Obligation) bool {
+	if f.rac == nil {
+		return false
+	}
+	for _, fl := range f.rac.Failures {
+		if failureMatches(o, fl) {
+			return true
+		}
+	}
+	return false
 }
